@@ -460,9 +460,9 @@ type GhostVar struct {
 
 type Lemma struct {
 	Name  string
+	Pkg   string // package path giving the naming context
 	Vars  []QVar
-	Given []Clause
-	Show  []Clause
+	Steps []LemmaStep
 	Src   string
 }
 
@@ -673,25 +673,40 @@ func (db *SpecDB) ParseSpecText(lines []string, srcs []string) error {
 				return fmt.Errorf("%s: vars outside lemma", l.src)
 			}
 			for _, part := range splitTopLevel(rest, ',') {
-				f := strings.Fields(part)
+				f := strings.SplitN(strings.TrimSpace(part), " ", 2)
 				if len(f) != 2 {
 					return fmt.Errorf("%s: vars name Type, ...", l.src)
 				}
-				curLemma.Vars = append(curLemma.Vars, QVar{f[0], f[1]})
+				curLemma.Vars = append(curLemma.Vars, QVar{f[0], strings.TrimSpace(f[1])})
 			}
 		case "given", "show":
 			if curLemma == nil {
 				return fmt.Errorf("%s: %s outside lemma", l.src, word)
 			}
-			c, err := mk(rest, l.src, fmt.Sprintf("%s%d", word, len(curLemma.Given)+len(curLemma.Show)+1))
+			c, err := mk(rest, l.src, fmt.Sprintf("%s%d", word, len(curLemma.Steps)+1))
 			if err != nil {
 				return err
 			}
-			if word == "given" {
-				curLemma.Given = append(curLemma.Given, c)
-			} else {
-				curLemma.Show = append(curLemma.Show, c)
+			curLemma.Steps = append(curLemma.Steps, LemmaStep{Kind: word, Text: rest, C: c})
+		case "call":
+			if curLemma == nil {
+				return fmt.Errorf("%s: call outside lemma", l.src)
 			}
+			key := rest
+			if curLemma.Pkg != "" {
+				key = expandKey(rest, curLemma.Pkg)
+			}
+			curLemma.Steps = append(curLemma.Steps, LemmaStep{Kind: "call", Text: key, C: Clause{Src: l.src}})
+		case "mark":
+			if curLemma == nil {
+				return fmt.Errorf("%s: mark outside lemma", l.src)
+			}
+			curLemma.Steps = append(curLemma.Steps, LemmaStep{Kind: "mark"})
+		case "in":
+			if curLemma == nil {
+				return fmt.Errorf("%s: 'in' outside lemma", l.src)
+			}
+			curLemma.Pkg = rest
 		case "#", "note":
 			// comment
 		default:
